@@ -5,7 +5,7 @@
 (* registries (composed by the Load machine from the raw files), each      *)
 (* judged by total predicates; every failing entry is printed.             *)
 (***************************************************************************)
-EXTENDS RealBanks
+EXTENDS RealBanks, National
 
 VARIABLE l
 NT == Len(TableRows)
@@ -26,6 +26,13 @@ CountryVerdict(r) ==
          THEN "position-outside-bban"
     ELSE IF \E n, m \in Ranges(r) : n # m /\ ~(r.pos[n][2] <= r.pos[m][1] \/ r.pos[m][2] <= r.pos[n][1])
          THEN "positions-overlap"
+    \* national algorithms read only fields the country defines: every field the PUBLISHED
+    \* algorithm needs must be defined (fields an implementation merely declares, e.g. an
+    \* empty branch code of BE/ME/MK/RS/TL, are harmless and not demanded)
+    ELSE IF <<r.key[1], r.key[2]>> \in NatCountries
+            /\ \E n \in 1..Len(ComponentNames) :
+                   ComponentNames[n] \in NatNeeds(<<r.key[1], r.key[2]>>) /\ r.pos[n] = <<0, 0>>
+         THEN "national-algorithm-needs-undefined-field"
     ELSE "ok"
 
 \* ------------------------------------------------------------------- banks
